@@ -2,27 +2,34 @@ from vf import Query
 
 SRC = ["src/kernel/resource/profile/Profile.cpp", "src/kernel/resource/profile/FutureEvtSet.cpp", "src/kernel/resource/profile/StochasticDatedValue.cpp"]
 META = {
-    "level_text": "Bounded symbolic execution of the real profile event kernel: Profile::schedule/next, the periodic repetition of LegacyUpdateCb (ProfileBuilder.cpp, included), "
-                  "FutureEvtSet::add_event/next_date/pop_leq over its binary heap; dates, values and periods are symbolic doubles (additions and comparisons only, expected "
-                  "dates built with the same operations in the same order). Application to hosts/links and the integration of progress need whole runs: outside.",
-    "bounds": "one periodic profile of 1..3 points observed over 5..7 events (2 periods), point deltas / values / loop delay any double in [0,1e12]; two one-point periodic "
-              "profiles on one event set over 4 events (path by path); unwind 10",
-    "outside": "parsing of profile text (strings), stochastic profiles, how resources apply the events (speed/bandwidth/state changes) and how running activities integrate "
-               "the piecewise-constant availability, events at date 0 handled at platform creation",
+    "level_text": "Bounded symbolic execution of the real profile event kernel, one step at a time: Profile::schedule/next/get_enough_events, the periodic repetition of "
+                  "LegacyUpdateCb (ProfileBuilder.cpp, included), FutureEvtSet::add_event/next_date/pop_leq over its binary heap; dates, values, loop delays and the "
+                  "pop date are symbolic doubles. The state after k deliveries is built directly (event index k pending at an arbitrary date), so one step covers "
+                  "every history leading to it. Application to hosts/links and the integration of progress need whole runs: outside.",
+    "bounds": "patterns of 1..3 points, event index 0..2*n (two periods: inside a period, at the wrap, after a wrap), periodic and one-shot; point deltas / values / loop "
+              "delay / pending date any double in [0,1e12], pop date any double in [0,2e12]; one event pending at a time; unwind 10",
+    "outside": "parsing of profile text (strings), stochastic laws, how resources apply the events (speed/bandwidth/state changes) and how running activities integrate "
+               "the piecewise-constant availability, events at date 0 handled at platform creation, several events pending together on one event set (heap order across resources: which profile pop_leq advances is then symbolic and its refill makes every size symbolic: 11 GB, no verdict); several consecutive pops in "
+               "one query (the early return of pop_leq, merged back, makes all container sizes symbolic: measured, no verdict in 300 s)",
     "stubs": ["Profile object built field by field (its constructor registers the name in a string-keyed map)", "resource pointers are opaque tags", "xbt logging -> silent",
               "abort() = violation", "std::string = 'nostring' model"],
-    "assumptions": ["deterministic (DET) laws; dates in the pattern are stored as differences, as the builder does"],
+    "assumptions": ["deterministic (DET) laws; dates in the pattern are stored as differences, as the builder does",
+                    "the state after k deliveries is: event->idx = k, get_enough_events(k) called, the event pending at an arbitrary date T"],
     "functions_filter": r"profile|Profile|FutureEvtSet",
 }
 
 
 def queries(tier):
     qs = []
-    for n, pops in ((1, 4), (2, 5), (3, 7)):
-        if tier == "quick" and n == 3:
-            continue
-        qs.append(Query(f"periodic_n{n}", "C22/profile.cpp", "harness_profile", dict(P_MODE=0, P_N=n, P_POPS=pops), SRC, unwind=10, cap_s=900, mem_gb=12,
-                        prelude=["rbtree", "nostring"], no_pointer_overflow=True, backend="kissat"))
-    qs.append(Query("two_profiles", "C22/profile.cpp", "harness_profile", dict(P_MODE=1, P_POPS=3 if tier == "quick" else 4), SRC, unwind=10, cap_s=1200, mem_gb=12,
-                    prelude=["rbtree", "nostring"], no_pointer_overflow=True, paths=True))
+    kw = dict(unwind=10, cap_s=600, mem_gb=12, backend="cadical", prelude=["rbtree", "nostring"], no_pointer_overflow=True)
+    for n in (1, 2, 3):
+        for loop in (1, 0):
+            if tier == "quick" and n == 3:
+                continue
+            qs.append(Query(f"schedule_n{n}_loop{loop}", "C22/profile.cpp", "harness_profile", dict(P_MODE=2, P_N=n, P_LOOP=loop), SRC, **kw))
+            for idx in range(0, 2 * n + 1 if loop else n):
+                if tier == "quick" and idx > n:
+                    continue
+                qs.append(Query(f"step_n{n}_loop{loop}_idx{idx}", "C22/profile.cpp", "harness_profile", dict(P_MODE=0, P_N=n, P_LOOP=loop, P_IDX=idx), SRC, **kw))
+    # (P_MODE 1 of the harness -- several events pending together, the one pop_leq advances being symbolic -- gives no verdict: 11 GB / 600 s in path mode; not claimed)
     return qs
